@@ -218,4 +218,16 @@ theorem c19_signed_roundtrip_inv (bits : Nat) (hb : bits = 16 ∨ bits = 32) (i 
       simp only [Nat.reducePow, Nat.reduceSub] at h1 h2 ⊢
       split <;> omega
 
+/-- non-vacuity: a register file with a gap and a validator; a read of two mapped registers meets the premises of
+    `c19_read_regs_agrees`, a write to the validated register those of `c19_write_reg_then_read` -/
+example :
+    let rs : Regs := [⟨10, 7, fun _ => true⟩, ⟨11, 65535, fun v => v % 2 == 0⟩, ⟨13, 1, fun _ => true⟩]
+    Regs16 rs ∧ allSome ((List.range 2).map (fun i => readReg rs (10 + i))) = some [7, 65535] ∧
+      (∃ ok, validatorOf rs 11 = some ok ∧ ok 4 = true ∧ ok 5 = false) ∧ readReg rs 12 = none := by
+  intro rs
+  refine ⟨?_, by decide, ⟨_, rfl, by decide, by decide⟩, by decide⟩
+  intro r hr
+  simp only [rs, List.mem_cons, List.not_mem_nil, or_false] at hr
+  rcases hr with rfl | rfl | rfl <;> decide
+
 end Siot.Modbus
